@@ -83,6 +83,24 @@ func vLexLE(a, b weight) bool {
 //@   loop 1 invariant forall(i, 0, rangeindex + 1, !(queryList[i] == "all" || queryList[i] == deviceMediaType)) && rangeindex < len(queryList)
 //@   loop 1 decreases len(queryList) - rangeindex
 
+// Order of appearance across sheets (CSS Cascade 4 §6.1, HTML §15.2 "presentational hints"): newStyleFor applies
+// the sheets in list order and the later declaration wins a tie, so the presentational-hint sheet (the only
+// one with a forced specificity) must come before every author sheet: only user-agent sheets precede it.
+// findStylesheets is assumed to write only through its out-parameters (it cannot reach the caller's list).
+//@ func findStylesheets
+//@   props C03
+//@   trusted "frame only: collects <style>/<link> sheets; writes through pageRules and counterStyle, never to a []sheet (it has no access to the caller's list)"
+//@   modifies *pageRules, counterStyle[..]
+//@ func GetAllComputedStyles
+//@   props C03
+//@   modifies anything
+//@   let base = 1 + ite(forms, 1, 0)
+//@   let ph = ite(presentationalHints, 1, 0)
+//@   let shape = len(sheets) >= base + ph && forall(j, 0, len(sheets), (j < base ==> sheets[j].origin == "user agent") && ((j < base || j >= base + ph) ==> sheets[j].specificity == nil))
+//@   loop 2 invariant shape
+//@   loop 3 invariant shape
+//@   call newStyleFor#1 assert[hints-before-author-sheets] forall(j, 0, len(arg1), arg1[j].specificity != nil ==> forall(i, 0, j, arg1[i].origin != "author"))
+
 // The cascade keeps, per property, the declaration of greatest weight, later declarations
 // winning ties: a stored value is replaced exactly when the slot is empty or the new
 // weight is >= the old one (lexicographic on (precedence, specificity)), and the weight
